@@ -272,8 +272,14 @@ class CylindricalSymGrid(GridBase):
     def difference_vector(
         self, p1: FloatingArray, p2: FloatingArray, *, coords: CoordsType = "grid"
     ) -> FloatingArray:
+        # the periodic axial coordinate corresponds to the third Cartesian component
+        bounds_z = self.axes_bounds[1]
         return self._difference_vector(
-            p1, p2, coords=coords, periodic=self.periodic, axes_bounds=self.axes_bounds
+            p1,
+            p2,
+            coords=coords,
+            periodic=[False, False, self._periodic_z],
+            axes_bounds=(bounds_z, bounds_z, bounds_z),
         )
 
     def get_line_data(
